@@ -333,6 +333,14 @@ def run_property(prop, modname, tier, level, title='', record_baseline=False):  
     out_lines = []
     real_violations = []
     for (name, model, detail, cname, smt2) in violations:
+        m_ = re.match(r'(C\d\d)/', name)
+        if (m_ and m_.group(1) != prop) or (not m_):
+            # an obligation of another property, or an auxiliary invariant:
+            # this property's proof is incomplete, but that is not a
+            # violation of this property
+            undecided.append((cname, f'{name}: refuted (not an obligation '
+                              f'of {prop}; its proof may depend on it)'))
+            continue
         sig = violation_signature(name, model, detail)
         hit = None
         for f in kfs:
